@@ -264,10 +264,17 @@ type env struct {
 	genvars map[types.Object]bool
 	rows    map[types.Object]map[string]ast.Expr // loop variable of an unrolled constant table → its fields' expressions
 	alias   map[types.Object]string              // Expression parameter of an inlined helper → the caller's expression text
+	fvals   map[types.Object][]ast.Expr          // function-typed local → the functions / method values it may hold here
+	flits   map[types.Object]*litVal             // function-typed local or parameter → the function literal it holds, with the environment it was written in
+}
+
+type litVal struct {
+	lit *ast.FuncLit
+	env *env
 }
 
 func newEnv() *env {
-	return &env{vals: map[types.Object][]Part{}, genvars: map[types.Object]bool{}, rows: map[types.Object]map[string]ast.Expr{}, alias: map[types.Object]string{}}
+	return &env{vals: map[types.Object][]Part{}, genvars: map[types.Object]bool{}, rows: map[types.Object]map[string]ast.Expr{}, alias: map[types.Object]string{}, fvals: map[types.Object][]ast.Expr{}, flits: map[types.Object]*litVal{}}
 }
 func (e *env) clone() *env {
 	n := newEnv()
@@ -276,6 +283,12 @@ func (e *env) clone() *env {
 	}
 	for k, v := range e.alias {
 		n.alias[k] = v
+	}
+	for k, v := range e.fvals {
+		n.fvals[k] = v
+	}
+	for k, v := range e.flits {
+		n.flits[k] = v
 	}
 	for k, v := range e.vals {
 		n.vals[k] = v
@@ -311,6 +324,40 @@ func constOf(ps []Part) (string, bool) {
 
 // merge joins environments after a branch.
 func mergeEnv(base *env, branches []*env) {
+	// a function-typed local holds after the branches whatever it may hold at the end of any of them
+	fkeys := map[types.Object]bool{}
+	for _, b := range branches {
+		for k := range b.fvals {
+			fkeys[k] = true
+		}
+	}
+	for k := range fkeys {
+		var union []ast.Expr
+		known := true
+		for _, b := range branches {
+			v, ok := b.fvals[k]
+			if !ok {
+				known = false
+				break
+			}
+			for _, x := range v {
+				dup := false
+				for _, o := range union {
+					if o == x || types.ExprString(o) == types.ExprString(x) {
+						dup = true
+					}
+				}
+				if !dup {
+					union = append(union, x)
+				}
+			}
+		}
+		if known {
+			base.fvals[k] = union
+		} else {
+			delete(base.fvals, k)
+		}
+	}
 	keys := map[types.Object]bool{}
 	for _, b := range branches {
 		for k := range b.vals {
@@ -642,6 +689,75 @@ func (ev *gemEval) bind(obj types.Object, rhs ast.Expr, e *env) {
 		e.vals[obj] = ev.fold(rhs, e)
 		delete(e.genvars, obj)
 	}
+	if _, isFn := obj.Type().Underlying().(*types.Signature); isFn {
+		delete(e.flits, obj)
+		if lit, ok := ast.Unparen(rhs).(*ast.FuncLit); ok {
+			e.flits[obj] = &litVal{lit, e.clone()}
+		}
+		delete(e.fvals, obj)
+		if fv := ev.funcValues(rhs, e, 0); fv != nil {
+			e.fvals[obj] = fv
+		}
+	}
+}
+
+// funcValues: the declared functions / method values a function-typed expression may denote (nil: unknown).
+func (ev *gemEval) funcValues(x ast.Expr, e *env, depth int) []ast.Expr {
+	info := ev.info()
+	x = ast.Unparen(x)
+	switch v := x.(type) {
+	case *ast.Ident:
+		if _, ok := info.Uses[v].(*types.Func); ok {
+			return []ast.Expr{v}
+		}
+		if fv, ok := e.fvals[info.ObjectOf(v)]; ok {
+			return fv
+		}
+	case *ast.SelectorExpr:
+		if _, ok := info.Uses[v.Sel].(*types.Func); ok {
+			if sel, isSel := info.Selections[v]; !isSel || sel.Kind() == types.MethodVal || sel.Kind() == types.MethodExpr {
+				return []ast.Expr{v}
+			}
+		}
+	case *ast.CallExpr:
+		// a package-local selector function: every function value it returns
+		if depth > 1 {
+			return nil
+		}
+		fn := calleeOf(info, v)
+		if fn == nil || fn.Pkg() != ev.g.pkg.Types {
+			return nil
+		}
+		var fd *ast.FuncDecl
+		for _, d := range allFuncDecls(ev.g.pkg) {
+			if info.Defs[d.Name] == fn {
+				fd = d
+			}
+		}
+		if fd == nil || fd.Body == nil || fd.Type.Results == nil || len(fd.Type.Results.List) != 1 {
+			return nil
+		}
+		// the receiver of the returned method values must be the receiver the selector was called on (g.pick(...) → g.m)
+		var out []ast.Expr
+		ok := true
+		ast.Inspect(fd.Body, func(n ast.Node) bool {
+			if _, isLit := n.(*ast.FuncLit); isLit {
+				return false
+			}
+			if r, isRet := n.(*ast.ReturnStmt); isRet && len(r.Results) == 1 {
+				fv := ev.funcValues(r.Results[0], newEnv(), depth+1)
+				if fv == nil {
+					ok = false
+				}
+				out = append(out, fv...)
+			}
+			return true
+		})
+		if ok && len(out) > 0 {
+			return out
+		}
+	}
+	return nil
 }
 
 func (ev *gemEval) assign(s *ast.AssignStmt, e *env) []Node {
@@ -765,6 +881,42 @@ func (ev *gemEval) traversals(x ast.Expr) []Node {
 
 func (ev *gemEval) call(call *ast.CallExpr, e *env, onEmit func(*Emit)) []Node {
 	info := ev.info()
+	// a call through a function-typed local (or of what a selector function returned): one alternative per function it may hold
+	if calleeOf(info, call) == nil {
+		var cands []ast.Expr
+		switch f := ast.Unparen(call.Fun).(type) {
+		case *ast.Ident:
+			cands = e.fvals[info.ObjectOf(f)]
+		case *ast.CallExpr:
+			cands = ev.funcValues(f, e, 0)
+		}
+		if len(cands) > 0 {
+			alt := Alt{Pos: call.Pos()}
+			any := false
+			for _, cand := range cands {
+				fun, args := cand, call.Args
+				if se, isSel := cand.(*ast.SelectorExpr); isSel && len(args) > 0 {
+					if sel, ok := info.Selections[se]; ok && sel.Kind() == types.MethodExpr {
+						// T.m(recv, args…) is recv.m(args…)
+						fun, args = &ast.SelectorExpr{X: args[0], Sel: se.Sel}, args[1:]
+					}
+				}
+				br := ev.call(&ast.CallExpr{Fun: fun, Lparen: call.Lparen, Args: args, Ellipsis: call.Ellipsis, Rparen: call.Rparen}, e.clone(), onEmit)
+				if len(br) > 0 {
+					any = true
+				}
+				alt.Branches = append(alt.Branches, br)
+				alt.Labels = append(alt.Labels, "via "+types.ExprString(cand))
+			}
+			if !any {
+				return nil
+			}
+			if len(alt.Branches) == 1 {
+				return alt.Branches[0]
+			}
+			return []Node{alt}
+		}
+	}
 	switch ev.g.emitterKind(call) {
 	case "go", "raw":
 		em := Emit{Parts: ev.fold(call.Args[0], e), Pos: call.Pos(), Raw: ev.g.emitterKind(call) == "raw"}
@@ -841,6 +993,7 @@ func (ev *gemEval) call(call *ast.CallExpr, e *env, onEmit func(*Emit)) []Node {
 			e2 := newEnv()
 			i := 0
 			okBind := true
+			textFuncArg := false
 			for _, prm := range cg.Decl.Type.Params.List {
 				for _, nm := range prm.Names {
 					if i >= len(call.Args) {
@@ -860,13 +1013,24 @@ func (ev *gemEval) call(call *ast.CallExpr, e *env, onEmit func(*Emit)) []Node {
 							}
 						}
 						e2.alias[obj] = txt
+					case t != nil && isTextFunc(t):
+						switch a := ast.Unparen(call.Args[i]).(type) {
+						case *ast.FuncLit:
+							e2.flits[obj] = &litVal{a, e.clone()}
+							textFuncArg = true
+						case *ast.Ident:
+							if lv, ok := e.flits[info.ObjectOf(a)]; ok {
+								e2.flits[obj] = lv
+								textFuncArg = true
+							}
+						}
 					}
 					i++
 				}
 			}
 			// worth evaluating here only if the caller passes code text it knows (a constant, a generated variable name):
 			// an opaque string (an element or attribute name held in a variable) says no more at the call site than inside
-			informative := cg.exprParametric
+			informative := cg.exprParametric || textFuncArg
 			for _, parts := range e2.vals {
 				for _, pt := range parts {
 					if pt.Kind == PConst || pt.Kind == PGenVar {
@@ -909,6 +1073,32 @@ func (ev *gemEval) fold(x ast.Expr, e *env) []Part {
 				}
 			}
 			return []Part{{Kind: PData, Src: types.ExprString(x)}}
+		}
+		// a function literal held by a local / handed to this helper, of the form func(…) string { return <text> }
+		if id, ok := ast.Unparen(x.Fun).(*ast.Ident); ok {
+			if lv, ok := e.flits[info.ObjectOf(id)]; ok && len(lv.lit.Body.List) == 1 {
+				if ret, ok := lv.lit.Body.List[0].(*ast.ReturnStmt); ok && len(ret.Results) == 1 {
+					e3 := lv.env.clone()
+					k := 0
+					bound := true
+					for _, prm := range lv.lit.Type.Params.List {
+						for _, nm := range prm.Names {
+							if k >= len(x.Args) {
+								bound = false
+								break
+							}
+							if ob := info.Defs[nm]; ob != nil && isStringType(ob.Type()) {
+								e3.vals[ob] = ev.fold(x.Args[k], e)
+								delete(e3.genvars, ob)
+							}
+							k++
+						}
+					}
+					if bound && k == len(x.Args) {
+						return ev.fold(ret.Results[0], e3)
+					}
+				}
+			}
 		}
 		fn := calleeOf(info, x)
 		fnm := fullName(fn)
@@ -1111,6 +1301,38 @@ func (ev *gemEval) sprintf(format string, args []ast.Expr, e *env) ([]Part, bool
 // ---------------------------------------------------------------- paths
 
 const maxPaths = 6000
+
+// walkNodes visits every node of a tree, descending into alternatives, loops and helpers evaluated in place.
+func walkNodes(nodes []Node, f func(Node)) {
+	for _, nd := range nodes {
+		f(nd)
+		switch x := nd.(type) {
+		case Alt:
+			for _, b := range x.Branches {
+				walkNodes(b, f)
+			}
+		case Loop:
+			walkNodes(x.Body, f)
+		case Inline:
+			walkNodes(x.Body, f)
+		}
+	}
+}
+
+// emitsConst: the function's own tree (helpers evaluated in place included) emits a constant containing sub.
+func emitsConst(nodes []Node, sub string) bool {
+	found := false
+	walkNodes(nodes, func(nd Node) {
+		if e, ok := nd.(Emit); ok {
+			for _, pp := range e.Parts {
+				if pp.Kind == PConst && strings.Contains(pp.Const, sub) {
+					found = true
+				}
+			}
+		}
+	})
+	return found
+}
 
 func endsInRet(p []Node) (Ret, bool) {
 	if len(p) == 0 {
@@ -1809,6 +2031,20 @@ func (ev *gemEval) tableRows(cl *ast.CompositeLit) []tableRow {
 
 // parametric: an unexported emitter of the generator package, never used as a value, that has a string or
 // parser.Expression parameter which reaches emitted text (directly, or by being passed on to another emitter).
+// isTextFunc: func(…string) string — a parameter through which a caller says how a piece of code text is built.
+func isTextFunc(t types.Type) bool {
+	sig, ok := t.Underlying().(*types.Signature)
+	if !ok || sig.Results().Len() != 1 || !isStringType(sig.Results().At(0).Type()) {
+		return false
+	}
+	for i := 0; i < sig.Params().Len(); i++ {
+		if !isStringType(sig.Params().At(i).Type()) {
+			return false
+		}
+	}
+	return true
+}
+
 func (g *GEM) parametric(gf *GFunc) bool {
 	if gf.paramKnown {
 		return gf.Parametric
@@ -1820,7 +2056,7 @@ func (g *GEM) parametric(gf *GFunc) bool {
 	params := map[types.Object]bool{}
 	for _, prm := range gf.Decl.Type.Params.List {
 		t := g.info.TypeOf(prm.Type)
-		if t == nil || !isStringType(t) {
+		if t == nil || !isStringType(t) && !isTextFunc(t) {
 			continue
 		}
 		for _, nm := range prm.Names {
